@@ -40,8 +40,11 @@ def gen_script(r, cls, n):
     ops = []
     depth = 0
     th = r.choice(THRESH) if cls != "force" else (HUGE, HUGE, HUGE)
-    errs = cls == "err"
+    errs = cls in ("err", "exist")
     big = cls == "thresh"
+    limit = r.choice([3, 4, 6, 10]) if cls == "limit" else 0
+    if limit:
+        th = tuple(th) + (limit,)
     if cls == "thresh":
         th = r.choice(THRESH[2:7])
 
@@ -62,10 +65,14 @@ def gen_script(r, cls, n):
             ops.append(["getlocal", k()])
         elif x < 0.68:
             ops.append(["bget", ",".join(sorted({k() for _ in range(r.choice([1, 2, 3, 5]))}, key=lambda _: r.random()))])
+        elif x < 0.72 and cls == "window":
+            ops.append(["storestep", str(r.choice([0, 0, 1, 1, 2, 3, 7]))])
         elif x < 0.80:
             force = "1" if (cls == "force" or r.random() < 0.5) else "0"
             wo = "0" if (errs and r.random() < 0.25) else "1"
             ops.append(["flush", force, wo, str(r.choice([0, 0, 1, 2, 9]))])
+        elif x < 0.88 and cls == "exist" and r.random() < 0.5:
+            ops.append(["completeexist", k()])
         elif x < 0.88:
             ops.append(["complete", "0" if (errs and r.random() < 0.3) else "1"])
         elif x < 0.91:
@@ -113,6 +120,18 @@ def directed_scripts():
     # regression class for F18 (fixed by 254a717): the batch-get cache must not survive a staging cleanup
     D.append(("d-stale-cache", (0, 0, 0), [["staging"], ["set", k1, v1], ["bget", k1], ["cleanup"], ["get", k1], ["getlocal", k1]]))
     D.append(("d-stale-cache-del", (0, 0, 0), [["set", k1, v1], ["flush", "1", "1", "0"], ["flushwait", "1"], ["staging"], ["del", k1], ["bget", k1], ["cleanup"], ["get", k1]]))
+    # every release point of the flush in flight: mutations reach the store one by one, reads at every point
+    w = [["set", k1, v1], ["set", k2, v1], ["flush", "1", "1", "0"], ["complete", "1"], ["set", k1, v2], ["del", k2], ["set", k3, v2], ["flush", "1", "1", "0"]]
+    for i in (0, 1, 2):
+        w += [["get", k1], ["get", k2], ["get", k3], ["bget", k1 + "," + k2 + "," + k3], ["storestep", str(i)]]
+    w += [["get", k1], ["get", k2], ["set", k2, v1], ["get", k2], ["complete", "1"], ["get", k1], ["get", k2], ["get", k3]]
+    D.append(("d-window", (0, 0, 0), w))
+    D.append(("d-window-fail", (0, 0, 0), [["set", k1, v1], ["flush", "1", "1", "0"], ["storestep", "0"], ["complete", "0"], ["flushwait", "1"], ["get", k1]]))
+    # handleAlreadyExistErr: the reported ErrKeyExist carries the value the failed flush was writing
+    D.append(("d-exist", (0, 0, 0), [["set", k1, v1], ["set", k2, v2], ["flush", "1", "1", "0"], ["set", k1, v2], ["completeexist", k1], ["flush", "1", "1", "0"], ["flushwait", "1"]]))
+    D.append(("d-exist-wait", (0, 0, 0), [["set", k2, v2], ["flush", "1", "1", "0"], ["completeexist", k2], ["flushwait", "1"]]))
+    # the entry size limit survives the buffer swap
+    D.append(("d-limit", (0, 0, 0, 4), [["set", k1, v1], ["set", k1, b"vvv".hex()], ["flush", "1", "1", "0"], ["set", k2, b"vvv".hex()], ["set", k2, v2], ["flushwait", "1"], ["get", k1], ["get", k2]]))
     return D
 
 
@@ -123,7 +142,7 @@ def build_cases(tier, seed):
     for name, th, ops in directed_scripts():
         cases.append((name, "directed", th, ops if name.startswith("d-stale") else ops + tail))
     n = {"quick": 2500, "thorough": 12000}.get(tier, 2500)
-    classes = ["rand", "rand", "force", "thresh", "err", "staging", "stale"]
+    classes = ["rand", "window", "force", "thresh", "err", "staging", "stale", "window", "exist", "limit"]
     for i in range(n):
         cls = classes[i % len(classes)]
         th, ops = gen_script(r, cls, r.choice([6, 12, 25, 40]))
@@ -134,7 +153,7 @@ def build_cases(tier, seed):
 def write_casefile(cases, path):
     with open(path, "w") as fh:
         for cid, cls, th, ops in cases:
-            fh.write("CASE\t%s\t%d\t%d\t%d\n" % (cid, th[0], th[1], th[2]))
+            fh.write("CASE\t%s\t%d\t%d\t%d\t%d\n" % (cid, th[0], th[1], th[2], th[3] if len(th) > 3 else 0))
             for o in ops:
                 fh.write("\t".join(o) + "\n")
             fh.write("END\n")
@@ -147,11 +166,13 @@ def parse_trace(text):
     for l in text.splitlines():
         f = l.split("\t")
         if f[0] == "CASE":
-            cur = {"params": f[2:5], "ops": [], "maxrun": 0}
+            cur = {"params": f[2:6], "ops": [], "maxrun": 0, "plines": []}
             out[f[1]] = cur
-        elif f[0] == "OP" and cur is not None:
+        elif f[0] in ("OP", "X") and cur is not None:
             i = f.index("=>")
-            cur["ops"].append((f[1], f[2:i], f[i + 1:]))
+            cur["ops"].append((("x" if f[0] == "X" else "") + f[1], f[2:i], f[i + 1:]))
+        elif f[0] == "P" and cur is not None:
+            cur["plines"].append(f[1:])
         elif f[0] == "MAXRUN" and cur is not None:
             cur["maxrun"] = int(f[2])
     return out
@@ -173,8 +194,16 @@ def oracle_case(tr):
         if res and (res[0].startswith("panic") or res[0].startswith("err:")):
             fails.append({"oracle": "no-unexpected-error", "op_index": idx, "detail": " ".join([name] + a + ["=>"] + res)})
             continue
-        if name == "set":
-            if a[1] != "_":
+        if name in ("set", "xset"):
+            limit = int(tr["params"][3]) if len(tr["params"]) > 3 else 0
+            size = len(a[0]) // 2 + (0 if a[1] == "_" else len(a[1]) // 2)
+            if limit:
+                n += 1
+                if (name == "xset") != (size > limit and a[1] != "_"):
+                    fails.append({"oracle": "entry-size-limit", "op_index": idx, "detail": "set of %d bytes with entry limit %d answered %s" % (size, limit, res[0])})
+            elif name == "xset":
+                fails.append({"oracle": "entry-size-limit", "op_index": idx, "detail": "set refused as too large without a limit"})
+            if name == "set" and a[1] != "_":
                 truth[a[0]] = a[1]; cur[a[0]] = a[1]
         elif name == "del":
             truth[a[0]] = "_"; cur[a[0]] = "_"
@@ -262,6 +291,10 @@ def oracle_case(tr):
             if (res[0] == "err") != pend_err:
                 fails.append({"oracle": "C16_flush_error_fails_txn", "op_index": idx, "detail": "FlushWait returned %s, unreported flush failure = %s" % (res[0], pend_err)})
             pend_err = False
+    for pl in tr.get("plines", []):
+        n += 1
+        if pl[-1] != "pass":
+            fails.append({"oracle": "handleAlreadyExistErr" if pl[0] == "existerr" else pl[0], "op_index": -1, "detail": " ".join(pl)})
     n += 1
     if tr["maxrun"] > 1:
         fails.append({"oracle": "C16_flush_once", "op_index": -1, "detail": "flush function ran %d times concurrently" % tr["maxrun"]})
